@@ -76,12 +76,10 @@ def order_violation(res):
     return None
 
 
-def run(ctx):
-    ctx.check_theorems("ActsModel.Props.C04")
-    n = 70 if ctx.tier == "quick" else 1200
+def run_batch(ctx, bases, stats):
     scs = []
     groups = []          # scenarios of one base workflow (its permutations)
-    for i in range(n):
+    for i in bases:
         w, exprs, rng = gen_base(ctx.seed, i, ctx.tier)
         vals = [(x, y) for x in range(4) for y in range(4)]
         pick = rng.shuffle(vals)[: (3 if ctx.tier == "quick" else 8)]
@@ -105,7 +103,7 @@ def run(ctx):
         answered = [sorted(t["nid"] for t in d["tasks"] if t["uses"] == gen.IRQ and t["state"] == "completed") for _, d in pts]
         ref_reqs.append({"cmd": "ref.eval", "model": sc["models"][0], "exprs": sc["exprs"], "inputs": sc["inputs"], "answered": answered})
     refs = ctx.driver(ref_reqs, tag="dr")
-    stats = {"scenarios": len(scs), "in_fragment": 0, "points": 0, "free_running": 0, "op_model_agree": 0, "branches_taken": 0, "else_taken": 0}
+    stats["scenarios"] += len(scs)
     final_by_group = {}
     for k, (sc, res, pts, rf, mod) in enumerate(zip(scs, results, ptsl, refs, models)):
         ctx.cov["evaluations"] += 1
@@ -159,6 +157,20 @@ def run(ctx):
                 ctx.violation("C04|order-dependence", f"the outcome depends on branch order / schedule: {d} vs {[x for x in base if x not in fin][:4]}",
                               {"scenario": sc, "other": runs[0][0]["id"], "final": fin, "final_other": base})
                 break
+    return [{k: v for k, v in sc.items()} for sc in scs[:1]]
+
+
+def run(ctx):
+    ctx.check_theorems("ActsModel.Props.C04")
+    n = 70 if ctx.tier == "quick" else 1200
+    stats = {"scenarios": 0, "in_fragment": 0, "points": 0, "free_running": 0, "op_model_agree": 0, "branches_taken": 0, "else_taken": 0}
+    first = None
+    chunk = 60          # base workflows per batch: the observations of a batch are dropped before the next one is run
+    for lo in range(0, n, chunk):
+        scs = run_batch(ctx, range(lo, min(n, lo + chunk)), stats)
+        if first is None and scs:
+            first = scs[0]
+    scs = [first]
     ctx.sample({"scenario": scs[0]["id"], "model": scs[0]["models"][0], "inputs": scs[0]["inputs"]}, limit=1)
     ctx.cov["correspondence"] = {"distribution": stats, "streams_compared": ["per-node states vs Ref.states at every quiescent point", "start order vs predecessor terminal (trace monitor)",
                                                                              "all branch permutations x schedules x worker counts of one (workflow, inputs) end alike", "stepped runs vs Op model"]}
